@@ -132,7 +132,8 @@ Inductive obs_inspect :=
 
 Inductive case :=
 | CSaveRead (api : N) (msgp : bool) (m : list field) (s : obs_save) (r : obs_read)
-    (* api 0: CatalogSave+CatalogRead, 1: CatalogSave+CatalogReadMany, 2: ProfileSave+ProfileRead *)
+    (* api 0: CatalogSave+CatalogRead, 1: CatalogSave+CatalogReadMany, 2: ProfileSave+ProfileRead,
+       3: CatalogCreate+CatalogRead (same converter, Set without overwrite into a fresh swamp) *)
 | CDecode (t : treasure sblob) (m : list field) (r : obs_read)
 | CInspect (m : list field) (o : obs_inspect).
 
